@@ -12,6 +12,11 @@
 //!        `CG:B,I` field;
 //!  (iii) every lazy accessor of `bam::Record` (inherent and through `sam::alignment::Record`) and
 //!        `RecordBuf::try_from_alignment_record` must agree with the eager decode of the same bytes;
+//!  (iii-b) the same file is read the way users read it — ONE reader, ONE reused buffer:
+//!        `read_record_buf(&h, &mut same)` loop, `record_bufs(&h)`, `read_record(&mut same)` loop,
+//!        `records()`, `try_clone_from_alignment_record` into one target — over batches with
+//!        deliberately generated "rich record followed by stripped record" neighbours; each record
+//!        read this way must equal the expected value (history-dependent decoder state);
 //!  (iv)  writing the lazy record again (`write_record`) must read back equal too (a `bam::Record`
 //!        is an alignment record the writer accepts).
 //! Out-of-range records (gensam `Invalid`) must be rejected when the BAM field cannot hold the value;
@@ -21,8 +26,8 @@ use std::io::Write;
 
 use gensam::{
     AuxDesc, Cmp, HeaderDesc, HeaderOpts, INVALID_KINDS, Invalid, Level, RecDesc, RecOpts, bam_normal_form, boundary_records, decode_bam_record,
-    describe_alignment_record, describe_header, describe_lazy_value, describe_record, diff_records, expected_bin, gen_header, gen_invalid_record,
-    gen_record, rec_class, split_bam_stream, to_header, to_record_buf,
+    adjacency_corpus, describe_alignment_record, describe_header, describe_lazy_value, describe_record, diff_records, expected_bin, gen_header,
+    gen_invalid_record, gen_record, gen_record_batch, rec_class, split_bam_stream, to_header, to_record_buf,
 };
 use noodles_bam as bam;
 use noodles_sam::{self as sam, alignment::RecordBuf, alignment::io::Write as _};
@@ -31,7 +36,7 @@ use vcore::{CaseOut, Ctx, Report, Rng, guard, rng::fnv1a, run_cases};
 
 #[derive(Clone, Debug)]
 struct Case {
-    /// "boundary" | "random" | "huge"
+    /// "boundary" | "adjacency" | "random" | "huge"
     kind: &'static str,
     with_dict: bool,
     bgzf: bool,
@@ -48,6 +53,10 @@ fn gen_cases(ctx: &Ctx) -> Vec<Case> {
     // deterministic boundary corpus under all four (dictionary, container) combinations
     for (i, (with_dict, bgzf)) in [(true, true), (true, false), (false, true), (false, false)].into_iter().enumerate() {
         v.push(Case { kind: "boundary", with_dict, bgzf, n: 0, cseed: i as u64 });
+    }
+    // deterministic rich -> missing -> rich / long -> short -> long neighbours (reused reader buffers)
+    for (i, (with_dict, bgzf)) in [(true, true), (true, false), (false, true), (false, false)].into_iter().enumerate() {
+        v.push(Case { kind: "adjacency", with_dict, bgzf, n: 0, cseed: 100 + i as u64 });
     }
     let per_case = ctx.budget("per_case", 250, 250) as usize;
     let records = ctx.budget("records", 30_000, 1_500_000) as usize;
@@ -81,6 +90,11 @@ fn build_case(c: &Case) -> (HeaderDesc, Vec<(RecDesc, Option<Invalid>)>) {
                 recs.push((gen_invalid_record(&mut rng, &hdr, &o, *k), Some(*k)));
             }
         }
+        "adjacency" => {
+            for r in adjacency_corpus(&hdr) {
+                recs.push((r, None));
+            }
+        }
         "huge" => {
             let mut o = RecOpts::full();
             o.huge_cigar_permille = 1000;
@@ -94,12 +108,14 @@ fn build_case(c: &Case) -> (HeaderDesc, Vec<(RecDesc, Option<Invalid>)>) {
                 o.max_seq_len = 2000;
                 o.max_array_len = 3000;
             }
-            for i in 0..c.n {
+            // valid records with deliberate "rich followed by stripped" neighbours, some replaced
+            // by out-of-range records
+            for (i, r) in gen_record_batch(&mut rng, &hdr, &o, c.n).into_iter().enumerate() {
                 if rng.chance(1, 14) {
                     let k = INVALID_KINDS[(i + rng.usize_below(INVALID_KINDS.len())) % INVALID_KINDS.len()];
                     recs.push((gen_invalid_record(&mut rng, &hdr, &o, k), Some(k)));
                 } else {
-                    recs.push((gen_record(&mut rng, &hdr, &o), None));
+                    recs.push((r, None));
                 }
             }
         }
@@ -224,6 +240,90 @@ fn read_lazy(c_bgzf: bool, file: &[u8]) -> Result<Vec<bam::Record>, (usize, Stri
         Ok(v)
     }
     if c_bgzf { go(bam::io::Reader::new(file)) } else { go(bam::io::Reader::from(file)) }
+}
+
+/// The way users read: ONE reader, ONE reused buffer. Returns, per path, what each record looked
+/// like right after it was read (`Err` = reading failed at that index).
+struct Reused {
+    /// `read_record_buf(&header, &mut same_buf)` in a loop
+    loop_buf: Result<Vec<RecDesc>, (usize, String)>,
+    /// `reader.record_bufs(&header)`
+    iter_buf: Result<Vec<RecDesc>, (usize, String)>,
+    /// `read_record(&mut same_record)` in a loop, described through the inherent accessors
+    loop_lazy: Result<Vec<Result<RecDesc, String>>, (usize, String)>,
+    /// `reader.records()`
+    iter_lazy: Result<Vec<Result<RecDesc, String>>, (usize, String)>,
+    /// `same_buf.try_clone_from_alignment_record(&header, &lazy)` over the lazy records in order
+    clone_into: Result<Vec<RecDesc>, (usize, String)>,
+}
+
+fn read_reused(c_bgzf: bool, file: &[u8]) -> Reused {
+    fn go<R: std::io::Read>(mk: &dyn Fn() -> bam::io::Reader<R>) -> Reused {
+        let loop_buf = (|| {
+            let mut r = mk();
+            let h = r.read_header().map_err(|e| (0usize, format!("read_header: {e}")))?;
+            let mut same = RecordBuf::default();
+            let mut v = Vec::new();
+            loop {
+                match r.read_record_buf(&h, &mut same) {
+                    Ok(0) => break,
+                    Ok(_) => v.push(describe_record(&same)),
+                    Err(e) => return Err((v.len(), reason(&e))),
+                }
+            }
+            Ok(v)
+        })();
+        let iter_buf = (|| {
+            let mut r = mk();
+            let h = r.read_header().map_err(|e| (0usize, format!("read_header: {e}")))?;
+            let mut v = Vec::new();
+            for x in r.record_bufs(&h) {
+                match x {
+                    Ok(rb) => v.push(describe_record(&rb)),
+                    Err(e) => return Err((v.len(), reason(&e))),
+                }
+            }
+            Ok(v)
+        })();
+        let mut clone_into: Result<Vec<RecDesc>, (usize, String)> = Ok(Vec::new());
+        let loop_lazy = (|| {
+            let mut r = mk();
+            let h = r.read_header().map_err(|e| (0usize, format!("read_header: {e}")))?;
+            let mut same = bam::Record::default();
+            let mut target = RecordBuf::default();
+            let mut v = Vec::new();
+            loop {
+                match r.read_record(&mut same) {
+                    Ok(0) => break,
+                    Ok(_) => {
+                        v.push(describe_inherent(&same));
+                        if let Ok(list) = clone_into.as_mut() {
+                            match target.try_clone_from_alignment_record(&h, &same) {
+                                Ok(()) => list.push(describe_record(&target)),
+                                Err(e) => clone_into = Err((list.len(), reason(&e))),
+                            }
+                        }
+                    }
+                    Err(e) => return Err((v.len(), reason(&e))),
+                }
+            }
+            Ok(v)
+        })();
+        let iter_lazy = (|| {
+            let mut r = mk();
+            r.read_header().map_err(|e| (0usize, format!("read_header: {e}")))?;
+            let mut v = Vec::new();
+            for x in r.records() {
+                match x {
+                    Ok(rec) => v.push(describe_inherent(&rec)),
+                    Err(e) => return Err((v.len(), reason(&e))),
+                }
+            }
+            Ok(v)
+        })();
+        Reused { loop_buf, iter_buf, loop_lazy, iter_lazy, clone_into }
+    }
+    if c_bgzf { go(&|| bam::io::Reader::new(file)) } else { go(&|| bam::io::Reader::from(file)) }
 }
 
 /// Describes a lazy record through its *inherent* accessors only.
@@ -569,6 +669,82 @@ fn run_case(c: &Case, idx: u64) -> CaseOut {
         }
     }
 
+    // (iii-b) the same file read the way users read it: one reader, one reused buffer
+    match guard::catch(|| read_reused(c.bgzf, &w.file)) {
+        Err(p) => out.violation(format!("panic:{}", p.sig), format!("reading through a reused buffer panicked: {} at {}:{}", p.message, p.file, p.line)),
+        Ok(ru) => {
+            let prev = |k: usize| if k == 0 { "<first record>".to_string() } else { short_rec(&descs[accepted[k - 1]].0) };
+            for (path, res) in [("read_record_buf", &ru.loop_buf), ("record_bufs", &ru.iter_buf), ("try_clone_from_alignment_record", &ru.clone_into)] {
+                match res {
+                    Err((at, e)) => out.violation(format!("reused-buffer:{path}:fails"), format!("{path} through one reused buffer fails at record #{at} ({cfg}): {e}")),
+                    Ok(v) if v.len() != accepted.len() => out.violation(format!("reused-buffer:{path}:record-count"), format!("{} accepted, {} read ({cfg})", accepted.len(), v.len())),
+                    Ok(v) => {
+                        for (k, got) in v.iter().enumerate() {
+                            out.count(&format!("compared_reused[{path}]"), 1);
+                            let i = accepted[k];
+                            let exp = bam_normal_form(&descs[i].0);
+                            if let Some(df) = diff_records(&exp, got, &Cmp::EXACT) {
+                                if path == "try_clone_from_alignment_record" && descs[i].0.cigar.len() > 65_535 && df.field == "aux:count" && only_extra_cg(&exp, got) {
+                                    out.violation_with("lazy-ne-eager:data-retains-CG-of-long-cigar", "try_clone_from_alignment_record of a lazy long-CIGAR record keeps the CG carrier field", json!({"record": i}));
+                                    continue;
+                                }
+                                out.violation_with(
+                                    format!("reused-buffer:{path}:{}", df.field),
+                                    format!(
+                                        "a record read with {path} into a REUSED buffer differs from what was written in {} ({cfg}): {}; written: {}; the record read just before: {}",
+                                        df.field,
+                                        df.detail,
+                                        short_rec(&descs[i].0),
+                                        prev(k)
+                                    ),
+                                    json!({"record": i}),
+                                );
+                            }
+                        }
+                    }
+                }
+            }
+            for (path, res) in [("read_record", &ru.loop_lazy), ("records", &ru.iter_lazy)] {
+                match res {
+                    Err((at, e)) => out.violation(format!("reused-record:{path}:fails"), format!("{path} through one reused record fails at record #{at} ({cfg}): {e}")),
+                    Ok(v) if v.len() != accepted.len() => out.violation(format!("reused-record:{path}:record-count"), format!("{} accepted, {} read ({cfg})", accepted.len(), v.len())),
+                    Ok(v) => {
+                        for (k, got) in v.iter().enumerate() {
+                            out.count(&format!("compared_reused[{path}]"), 1);
+                            let i = accepted[k];
+                            match got {
+                                Err(msg) => out.violation_with(
+                                    format!("reused-record:{path}:accessor-fails:{}", msg.split(':').next().unwrap_or("?")),
+                                    format!("lazy view of a record read with {path} into a reused record fails: {msg}; record: {}", short_rec(&descs[i].0)),
+                                    json!({"record": i}),
+                                ),
+                                Ok(l) => {
+                                    if let Some(df) = diff_records(&edescs[k], l, &Cmp::EXACT) {
+                                        if descs[i].0.cigar.len() > 65_535 && df.field == "aux:count" && only_extra_cg(&edescs[k], l) {
+                                            out.violation_with("lazy-ne-eager:data-retains-CG-of-long-cigar", "lazy data() of a long-CIGAR record keeps the CG carrier field (reused record)", json!({"record": i}));
+                                            continue;
+                                        }
+                                        out.violation_with(
+                                            format!("reused-record:{path}:{}", df.field),
+                                            format!(
+                                                "a record read with {path} into a REUSED bam::Record differs from the eager decode in {}: {}; record: {}; the record read just before: {}",
+                                                df.field,
+                                                df.detail,
+                                                short_rec(&descs[i].0),
+                                                prev(k)
+                                            ),
+                                            json!({"record": i}),
+                                        );
+                                    }
+                                }
+                            }
+                        }
+                    }
+                }
+            }
+        }
+    }
+
     // (iv) the lazy record written again
     let mut w2 = bam::io::Writer::from(Vec::new());
     let mut accepted2: Vec<usize> = Vec::new();
@@ -660,10 +836,10 @@ fn main() {
          2^29 and 2^31 edges, MAPQ 0..255, CIGARs of 0/1/few/100..2000/65535/65536/65537/70000 operations over all 9 kinds, odd/even/zero SEQ over \
          the 16-letter alphabet plus lower case and foreign bytes, QUAL present/missing, every aux type A c C s S i I f Z H B:cCsSiIf at range \
          edges incl. empty arrays, -0, subnormals, inf, NaN) plus ~7% out-of-range records of 13 classes, written under (dictionary | no \
-         dictionary) x (Writer::new BGZF | Writer::from raw); deterministic boundary corpus under all 4 combinations + VERIF_SEED-seeded random \
-         part; evaluation = one record handed to the writer; distinct = distinct (gensam::rec_class of an accepted record [name length class, reference presence, position class, MAPQ class, CIGAR count class, number of kinds, SEQ parity + letter class, QUAL presence, mate class, aux count class], configuration) plus distinct (aux type [+ empty/long array], configuration); \
-         non-trivial = accepted records (each is read back eagerly, decoded independently from the raw bytes, viewed lazily through 3 paths and \
-         re-written)",
+         dictionary) x (Writer::new BGZF | Writer::from raw); deterministic boundary corpus and adjacency corpus (rich -> missing -> rich, long -> short -> long neighbours for every optional part) \
+         under all 4 combinations + VERIF_SEED-seeded random part in which every ~6th record is followed by a stripped variant; evaluation = one record handed to the writer; distinct = distinct (gensam::rec_class of an accepted record [name length class, reference presence, position class, MAPQ class, CIGAR count class, number of kinds, SEQ parity + letter class, QUAL presence, mate class, aux count class], configuration) plus distinct (aux type [+ empty/long array], configuration); \
+         non-trivial = accepted records (each is read back eagerly, decoded independently from the raw bytes, viewed lazily through 3 paths, read again through ONE reader with ONE reused buffer \
+         [read_record_buf loop, record_bufs(), read_record loop, records(), try_clone_from_alignment_record into one target] and re-written)",
     );
     rep.assumptions.push("oracles: the generator's description + gensam's BAM decoder/reg2bin written from SAMv1 4.2/5.3; BGZF layer undone by vcore's independent walker".into());
     rep.assumptions.push("aux equality in BAM = same tag order, same declared type (c/C/s/S/i/I kept apart), same value; floats bit-identical (NaN = any NaN)".into());
@@ -681,6 +857,9 @@ fn main() {
         rep.floor("compared_raw", g("compared_raw"), g("accepted_valid"));
         rep.floor("compared_lazy[inherent]", g("compared_lazy[inherent]"), g("accepted_valid"));
         rep.floor("compared_lazy[trait]", g("compared_lazy[trait]"), g("accepted_valid"));
+        for p in ["read_record_buf", "record_bufs", "read_record", "records", "try_clone_from_alignment_record"] {
+            rep.floor(&format!("compared_reused[{p}]"), g(&format!("compared_reused[{p}]")), g("accepted_valid"));
+        }
         rep.floor("bin_checked", g("bin_checked"), 1000);
         rep.floor("cg_overflow_records_raw", g("cg_overflow_records_raw"), 8);
         let rejected: u64 = counters.iter().filter(|(k, _)| k.starts_with("rejected[")).map(|(_, v)| *v).sum();
